@@ -200,21 +200,26 @@ Section RunApi.
 
   Definition ev_cmp (a b : string) : comparison := str_compare a b.
 
-  (* runs of consecutive `drop` events (one dropDatabase) are sorted *)
-  Fixpoint canon_events (l : list doc) (run : list string) : list string :=
-    match l with
-    | [] => stable_sort ev_cmp run
-    | d :: t =>
-        let s := show_doc (strip_event d) in
-        if is_drop d then canon_events t (s :: run)
-        else (stable_sort ev_cmp run ++ s :: canon_events t [])%list
-    end.
+  Definition is_delete (d : doc) : bool :=
+    match lookup d "operationType" with Some (VString "delete") => true | _ => false end.
 
   (* the delete events of one Expire pass come namespace by namespace in Go map
-     order: group them by namespace text (stable) *)
+     order: runs of consecutive delete events are grouped by namespace (stable) *)
   Definition ns_text (d : doc) : string :=
     match lookup d "ns" with Some v => show_value v | None => "" end.
   Definition ns_cmp (a b : doc) : comparison := str_compare (ns_text a) (ns_text b).
+
+  (* runs of consecutive `drop` events (one dropDatabase) are sorted; runs of
+     consecutive `delete` events are grouped by namespace *)
+  Fixpoint canon_events (l : list doc) (drops : list string) (dels : list doc) : list string :=
+    let flush_dels := map (fun d => show_doc (strip_event d)) (stable_sort ns_cmp (rev dels)) in
+    match l with
+    | [] => (stable_sort ev_cmp drops ++ flush_dels)%list
+    | d :: t =>
+        if is_drop d then (flush_dels ++ canon_events t (show_doc (strip_event d) :: drops) [])%list
+        else if is_delete d then (stable_sort ev_cmp drops ++ canon_events t [] (d :: dels))%list
+        else (stable_sort ev_cmp drops ++ flush_dels ++ show_doc (strip_event d) :: canon_events t [] [])%list
+    end.
 
   Definition oplog_docs (cat : catalog) : list sdoc := c_docs (oplog_of cat).
 
@@ -234,7 +239,7 @@ Section RunApi.
   Definition show_catalog (cat : catalog) : string :=
     par (map (fun hc => par [hex (fst (fst hc)); hex (snd (fst hc));
                              if handle_eqb (fst hc) oplog_handle
-                             then par (canon_events (map snd (c_docs (snd hc))) [])
+                             then par (canon_events (map snd (c_docs (snd hc))) [] [])
                              else show_coll (snd hc)])
              (stable_sort handle_cmp (cat_ns cat))).
 
@@ -248,13 +253,12 @@ Section RunApi.
             let before := cat_clock (ds_cat ds) in
             let len_before := len (oplog_docs (ds_cat ds)) in
             let '(ds', r) := step matchf applyf extractf projectf now ds c in
-            let evs0 := new_events (ds_cat ds') before in
-            let evs := match c with CExpire _ => stable_sort ns_cmp evs0 | _ => evs0 end in
+            let evs := new_events (ds_cat ds') before in
             let trimmed := (len_before + len evs - len (oplog_docs (ds_cat ds')))%Z in
             let line :=
               sp [show_reply r;
                   match target_of c with Some h => show_ns (ds_cat ds') h | None => "-" end;
-                  par (canon_events evs []); show_Z trimmed] in
+                  par (canon_events evs [] []); show_Z trimmed] in
             line :: run_calls now ds' t
         end
     end.
